@@ -3,6 +3,7 @@
    needed for shape).  DESIGN.md appendix A.4. *)
 From Coq Require Import String List Bool Arith Lia.
 From PM Require Import Semiring Poly Rel Analysis Calculus Sem_stmts Calc_alg Exec Exec_proofs.
+From PM Require An_stmts.
 From PMGen Require Import RulesGen.
 Import ListNotations.
 Open Scope list_scope.
@@ -80,17 +81,486 @@ Proof.
   unfold alt_add, sc_le.
   destruct (string_dec x y) as [Exy|Nxy]; destruct (string_dec x z) as [Exz|Nxz];
     destruct (string_dec y z) as [Eyz|Nyz]; subst; try congruence;
-    simpl in Eop; destruct Eop as [<-|[<-|[<-|[]]]];
-    cbn [negb cv_lookup mem_strb index_of_str opt_str_eqb andb orb option_map String.eqb Ascii.eqb Bool.eqb
-         dedup_first filter opt_names flat_map app map];
-    str_eqs;
-    cbn [negb cv_lookup mem_strb index_of_str opt_str_eqb andb orb option_map String.eqb Ascii.eqb Bool.eqb
-         dedup_first filter opt_names flat_map app map];
-    str_eqs;
-    cbn [negb cv_lookup mem_strb index_of_str opt_str_eqb andb orb option_map String.eqb Ascii.eqb Bool.eqb
-         dedup_first filter opt_names flat_map app map];
-    intros HL; inversion HL; subst L; clear HL;
-    (eexists; split; [intros u v; reflexivity|]);
-    cbn [assoc_sc]; str_eqs;
-    destruct Hc as [->|[->|[c' ->]]]; cbn [nth_triple rank]; (left + right); repeat split; auto; lia.
+    simpl in Eop; destruct Eop as [<-|[<-|[<-|[]]]].
+  all: cbn [negb cv_lookup mem_strb index_of_str opt_str_eqb andb orb option_map String.eqb Ascii.eqb Bool.eqb
+         dedup_first filter opt_names flat_map app map].
+  all: str_eqs.
+  all: cbn [negb cv_lookup mem_strb index_of_str opt_str_eqb andb orb option_map String.eqb Ascii.eqb Bool.eqb
+         dedup_first filter opt_names flat_map app map].
+  all: str_eqs.
+  all: cbn [negb cv_lookup mem_strb index_of_str opt_str_eqb andb orb option_map String.eqb Ascii.eqb Bool.eqb
+         dedup_first filter opt_names flat_map app map].
+  all: intros HL; inversion HL; subst L; clear HL.
+  all: (eexists; split; [intros u v; reflexivity|]).
+  all: cbn [assoc_sc]; str_eqs.
+  all: destruct Hc as [->|[->|[c' ->]]]; cbn [nth_triple rank].
+  all: first [ left; split; [reflexivity | lia] | right; split; [auto | lia] ].
 Qed.
+
+(* ------------------------------------------------------------------ *)
+(* leaves                                                              *)
+
+Lemma Conf_copy V A st x y :
+  In x V -> In y V -> Conf V A st -> Conf V (smul V A (leaf_copy x y)) (upd st x (st y)).
+Proof.
+  intros Hx Hy C. unfold leaf_copy. destruct (String.eqb x y) eqn:E.
+  - apply String.eqb_eq in E. subst y. intros v Hv. unfold upd.
+    apply good_weaken with (col := fun u => A u v).
+    + intros u Hu. apply leV_smul_sid; assumption.
+    + destruct (String.eqb v x) eqn:E2; [apply String.eqb_eq in E2; subst v|]; apply C; assumption.
+  - apply Conf_leaf with (f := fun u => if String.eqb u y then M else O).
+    + intros u v. reflexivity.
+    + exact C.
+    + intros _. eapply good_weaken; [|apply C; exact Hy]. intros u Hu. cbv beta.
+      eapply sc_le_trans; [|apply (smul_ge V A _ u x y Hy)].
+      unfold scol. rewrite !String.eqb_refl. rewrite sprod_M_r. apply sc_le_refl.
+Qed.
+
+Lemma Conf_bin V A st x op y z c L val :
+  In x V -> In y V -> In z V ->
+  leaf_bin x op (Some y) (Some z) c = Some L -> exec_bin op (st y) (st z) = Some val ->
+  Conf V A st -> Conf V (smul V A L) (upd st x val).
+Proof.
+  intros Hx Hy Hz HL Hex C.
+  destruct (leaf_bin_shape _ _ _ _ _ _ HL) as [f [Hcol Hf]].
+  apply (Conf_leaf V A L x f st val Hcol C). intros _.
+  assert (Gy := C y Hy). assert (Gz := C z Hz).
+  assert (Ly : forall u, sc_le (sprod (A u y) (f y)) (smul V A L u x)).
+  { intros u. eapply sc_le_trans; [|apply (smul_ge V A L u x y Hy)].
+    rewrite Hcol, String.eqb_refl. apply sc_le_refl. }
+  assert (Lz : forall u, sc_le (sprod (A u z) (f z)) (smul V A L u x)).
+  { intros u. eapply sc_le_trans; [|apply (smul_ge V A L u x z Hz)].
+    rewrite Hcol, String.eqb_refl. apply sc_le_refl. }
+  destruct Hf as [[-> [Wy Wz]] | [Hop Halt]].
+  - unfold exec_bin in Hex. simpl in Hex. inversion Hex; subst val.
+    apply (good_WW V (fun u => A u y) (fun u => A u z) _ (st y) (st z)).
+    + intros u. apply pvars_pmul.
+    + exact Gy.
+    + exact Gz.
+    + intros u Hu. eapply sc_le_trans; [apply sprod_ge_W; exact Wy | apply Ly].
+    + intros u Hu. eapply sc_le_trans; [apply sprod_ge_W; exact Wz | apply Lz].
+  - assert (Ev : val = padd (st y) (st z)).
+    { destruct Hop as [-> | ->]; unfold exec_bin in Hex; simpl in Hex; inversion Hex; reflexivity. }
+    subst val. destruct Halt as [[My Pz] | [[Py Mz] | [Wy Wz]]].
+    + apply (good_add_MP V (fun u => A u y) (fun u => A u z)); [exact Gy | exact Gz | |].
+      * intros u Hu. eapply sc_le_trans; [apply sprod_ge_l; exact My | apply Ly].
+      * intros u Hu. eapply sc_le_trans; [apply sprod_ge_P; exact Pz | apply Lz].
+    + apply (good_add_PM V (fun u => A u y) (fun u => A u z)); [exact Gy | exact Gz | |].
+      * intros u Hu. eapply sc_le_trans; [apply sprod_ge_P; exact Py | apply Ly].
+      * intros u Hu. eapply sc_le_trans; [apply sprod_ge_l; exact Mz | apply Lz].
+    + apply (good_WW V (fun u => A u y) (fun u => A u z) _ (st y) (st z)).
+      * intros u Hu. unfold padd in Hu. rewrite pvars_app in Hu. apply in_app_or. exact Hu.
+      * exact Gy.
+      * exact Gz.
+      * intros u Hu. eapply sc_le_trans; [apply sprod_ge_W; exact Wy | apply Ly].
+      * intros u Hu. eapply sc_le_trans; [apply sprod_ge_W; exact Wz | apply Lz].
+Qed.
+
+(* ------------------------------------------------------------------ *)
+(* unfolding lemmas for the semantics                                  *)
+
+Lemma exec_seq_nil ex st : exec_seq ex [] [] st = Some st.
+Proof. reflexivity. Qed.
+
+Lemma exec_seq_cons ex p1 pr s1 sr st :
+  exec_seq ex (p1 :: pr) (s1 :: sr) st =
+  match ex p1 s1 st with Some st' => exec_seq ex pr sr st' | None => None end.
+Proof. reflexivity. Qed.
+
+Lemma exec_seq_mismatch ex ps ss st st' :
+  exec_seq ex ps ss st = Some st' -> length ps = length ss.
+Proof.
+  revert ss st. induction ps as [|p1 pr IH]; intros [|s1 sr] st H; try discriminate H; [reflexivity|].
+  rewrite exec_seq_cons in H. destruct (ex p1 s1 st) as [st1|]; [|discriminate].
+  simpl. f_equal. eapply IH. exact H.
+Qed.
+
+Lemma exec_iter_cons ex q r st :
+  exec_iter ex (q :: r) st = match ex q st with Some st' => exec_iter ex r st' | None => None end.
+Proof. reflexivity. Qed.
+
+Lemma dlist_None rec V l : forall idx, fst (dlist rec V l None idx) = None.
+Proof.
+  induction l as [|s1 t IH]; intros idx; simpl; [reflexivity|].
+  destruct (rec s1 idx) as [m idx']. apply IH.
+Qed.
+
+(* ------------------------------------------------------------------ *)
+(* the closure                                                         *)
+
+Lemma star_props V B0 St :
+  sstar V B0 = Some St ->
+  (forall y, In y V -> sc_le M (St y y)) /\ leV V (smul V St B0) St.
+Proof.
+  unfold sstar. intros H.
+  destruct (sstar_loop_inv (fun _ => True) V B0 (fun _ _ => Logic.I) _ _ _ Logic.I H) as [_ Hfix].
+  split.
+  - intros y Hy. rewrite <- (Hfix y y Hy Hy), sstep_eq, sid_eq. apply sc_le_ssum_l.
+  - intros x y Hx Hy. rewrite <- (Hfix x y Hx Hy), sstep_eq. apply sc_le_ssum_r.
+Qed.
+
+Lemma l_extend_ge V X St : leV V St (memo V (l_extend V X St)).
+Proof.
+  intros u v _ _. rewrite memo_eq. unfold l_extend.
+  destruct (String.eqb u X && existsb (fun i => L_PROPAGATE (St i v) (String.eqb i v)) V).
+  - apply sc_le_ssum_l.
+  - apply sc_le_refl.
+Qed.
+
+Lemma for_body_vars iters srcs conds nxt body :
+  incl (stmt_vars body) (stmt_vars (SFor iters srcs conds nxt body)).
+Proof.
+  intros v Hv. simpl. destruct (loop_guard_x iters srcs conds nxt) as [|x [|? ?]]; try exact Hv.
+  destruct (mem_strb x (stmt_vars body)); [exact Hv | right; exact Hv].
+Qed.
+
+(* ------------------------------------------------------------------ *)
+(* the induction                                                       *)
+
+Section Induction.
+Variable V : list string.
+Variable cs : list nat.
+
+Definition SoundF (fuel : nat) : Prop :=
+  forall s p idx A B st st', incl (stmt_vars s) V ->
+    fst (derive fuel V s cs idx) = Some B -> exec p s st = Some st' ->
+    Conf V A st -> Conf V (smul V A B) st'.
+
+(* F = what is in front of the accumulated matrix: the identity at top level, A. inside a statement *)
+Lemma sound_list fuel (F : smat -> smat) :
+  SoundF fuel ->
+  (forall X m, leV V (smul V (F X) m) (F (memo V (smul V X m)))) ->
+  forall l ps idx acc B st st', incl (flat_map stmt_vars l) V ->
+    fst (dlist (fun s1 i => derive fuel V s1 cs i) V l (Some acc) idx) = Some B ->
+    exec_seq exec ps l st = Some st' -> Conf V (F acc) st -> Conf V (F B) st'.
+Proof.
+  intros IH HF. induction l as [|s1 t IHl]; intros ps idx acc B st st' Hv Hd Hex C.
+  - destruct ps; [|discriminate Hex]. rewrite exec_seq_nil in Hex. simpl in Hd.
+    inversion Hd; inversion Hex; subst. exact C.
+  - destruct ps as [|p1 pr]; [discriminate Hex|]. rewrite exec_seq_cons in Hex.
+    destruct (exec p1 s1 st) as [st1|] eqn:E1; [|discriminate].
+    simpl in Hd. destruct (derive fuel V s1 cs idx) as [m idx'] eqn:Ed.
+    simpl in Hv. apply incl_app_inv in Hv. destruct Hv as [Hv1 Hvt].
+    destruct m as [m1|].
+    + simpl in Hd. apply (IHl pr idx' _ B st1 st' Hvt Hd Hex).
+      eapply Conf_weaken; [apply HF|].
+      apply (IH s1 p1 idx (F acc) m1 st st1 Hv1); [rewrite Ed; reflexivity | exact E1 | exact C].
+    + simpl in Hd. rewrite dlist_None in Hd. discriminate.
+Qed.
+
+Lemma F_smul A : forall X m, leV V (smul V (smul V A X) m) (smul V A (memo V (smul V X m))).
+Proof.
+  intros X m x y Hx Hy. rewrite (smul_assoc V A X m x y).
+  apply (smul_mono V A A (smul V X m) (memo V (smul V X m))); auto.
+  - apply leV_refl.
+  - intros a b _ _. rewrite memo_eq. apply sc_le_refl.
+Qed.
+
+Lemma F_id : forall X m, leV V (smul V X m) (memo V (smul V X m)).
+Proof. intros X m x y _ _. rewrite memo_eq. apply sc_le_refl. Qed.
+
+Lemma sound_iter A B0 St body :
+  (forall q A' st st', exec q body st = Some st' -> Conf V A' st -> Conf V (smul V A' B0) st') ->
+  leV V (smul V St B0) St ->
+  forall its st st', exec_iter (fun q => exec q body) its st = Some st' ->
+    Conf V (smul V A St) st -> Conf V (smul V A St) st'.
+Proof.
+  intros Hb HS. induction its as [|q r IH]; intros st st' Hex C.
+  - simpl in Hex. inversion Hex; subst. exact C.
+  - rewrite exec_iter_cons in Hex. destruct (exec q body st) as [st1|] eqn:E1; [|discriminate].
+    apply (IH st1 st' Hex). eapply Conf_weaken; [|apply (Hb q _ st st1 E1 C)].
+    intros x y Hx Hy. rewrite (smul_assoc V A St B0 x y).
+    apply (smul_mono V A A (smul V St B0) St); auto. apply leV_refl.
+Qed.
+
+Lemma sound_loop fuel A body idx B0 St its st st' :
+  SoundF fuel -> incl (stmt_vars body) V ->
+  fst (derive fuel V body cs idx) = Some B0 -> sstar V B0 = Some St ->
+  exec_iter (fun q => exec q body) its st = Some st' ->
+  Conf V A st -> Conf V (smul V A St) st'.
+Proof.
+  intros IH Hv Hd Hs Hex C. destruct (star_props V B0 St Hs) as [S1 S2].
+  apply (sound_iter A B0 St body) with (its := its) (st := st); auto.
+  - intros q A' s1 s2 E C'. apply (IH body q idx A' B0 s1 s2 Hv Hd E C').
+  - eapply Conf_weaken; [apply leV_smul_diag; exact S1 | exact C].
+Qed.
+
+Lemma sound_fuel : forall fuel, SoundF fuel.
+Proof.
+  induction fuel as [|fuel IH]; intros s p idx A B st st' Hv Hd Hex C.
+  - simpl in Hd. discriminate.
+  - destruct s; cbn [derive] in Hd.
+    + (* SSkip *)
+      destruct p; try discriminate Hex. simpl in Hex, Hd. inversion Hex; inversion Hd; subst.
+      eapply Conf_weaken; [apply leV_smul_sid | exact C].
+    + (* SBin *)
+      destruct p; try discriminate Hex.
+      destruct y as [y|]; [|discriminate Hex]. destruct z as [z|]; [|discriminate Hex].
+      cbn [exec] in Hex. destruct (exec_bin op (st y) (st z)) as [val|] eqn:Eb; [|discriminate].
+      inversion Hex; subst st'. unfold d_bin in Hd. simpl in Hd.
+      simpl in Hv.
+      apply (Conf_bin V A st x op y z (nth idx cs 0) B val); auto.
+      * apply Hv. simpl; auto.
+      * apply Hv. simpl; auto.
+      * apply Hv. simpl; auto.
+    + (* SConst *) destruct p; discriminate Hex.
+    + (* SCopy *)
+      destruct p; try discriminate Hex. simpl in Hex, Hd. inversion Hex; inversion Hd; subst.
+      apply Conf_copy; auto; apply Hv; simpl; auto.
+    + (* SUnAsg *) destruct p; discriminate Hex.
+    + (* SUnary *) destruct p; discriminate Hex.
+    + (* SIf *)
+      destruct p as [|? |b ps|?]; try discriminate Hex.
+      change (exec_seq exec ps (if b then t else e) st = Some st') in Hex.
+      destruct (dlist (fun s1 i => derive fuel V s1 cs i) V t (Some sid) idx) as [mt i1] eqn:Et.
+      destruct (dlist (fun s1 i => derive fuel V s1 cs i) V e (Some sid) i1) as [me i2] eqn:Ee.
+      simpl in Hd. destruct mt as [Bt|]; [|discriminate]. destruct me as [Be|]; [|discriminate].
+      simpl in Hd. inversion Hd; subst B.
+      simpl in Hv. apply incl_app_inv in Hv. destruct Hv as [Hvt Hve].
+      assert (C0 : Conf V (smul V A sid) st) by (eapply Conf_weaken; [apply leV_smul_sid | exact C]).
+      destruct b.
+      * eapply Conf_weaken;
+          [| apply (sound_list fuel (smul V A) IH (F_smul A) t ps idx sid Bt st st' Hvt); [rewrite Et; reflexivity | exact Hex | exact C0]].
+        apply (smul_mono V A A Bt (memo V (sadd Be Bt))); [apply leV_refl|].
+        intros x y _ _. rewrite memo_eq. unfold sadd. apply sc_le_ssum_r.
+      * eapply Conf_weaken;
+          [| apply (sound_list fuel (smul V A) IH (F_smul A) e ps i1 sid Be st st' Hve); [rewrite Ee; reflexivity | exact Hex | exact C0]].
+        apply (smul_mono V A A Be (memo V (sadd Be Bt))); [apply leV_refl|].
+        intros x y _ _. rewrite memo_eq. unfold sadd. apply sc_le_ssum_l.
+    + (* SWhile *)
+      destruct p as [|? |? ?|its]; try discriminate Hex.
+      change (exec_iter (fun q => exec q s) its st = Some st') in Hex.
+      destruct (derive fuel V s cs idx) as [mb i1] eqn:Eb. simpl in Hd. unfold d_while in Hd.
+      destruct mb as [B0|]; [|discriminate]. destruct (sstar V B0) as [St|] eqn:Es; [|discriminate].
+      destruct (w_ok V St); [|discriminate]. inversion Hd; subst B.
+      simpl in Hv. apply incl_app_inv in Hv. destruct Hv as [_ Hvb].
+      apply (sound_loop fuel A s idx B0 St its st st' IH Hvb); auto. rewrite Eb; reflexivity.
+    + (* SFor *)
+      destruct p as [|? |? ?|its]; try discriminate Hex.
+      cbn [exec] in Hex.
+      destruct (loop_compat iters srcs conds nxt s) as [X|] eqn:El; [|discriminate Hex].
+      destruct (derive fuel V s cs idx) as [mb i1] eqn:Eb. simpl in Hd. unfold d_for in Hd.
+      destruct mb as [B0|]; [|discriminate]. destruct (sstar V B0) as [St|] eqn:Es; [|discriminate].
+      destruct (l_ok V St); [|discriminate]. inversion Hd; subst B.
+      assert (Hvb : incl (stmt_vars s) V).
+      { intros v Hin. apply Hv. apply for_body_vars. exact Hin. }
+      eapply Conf_weaken; [| apply (sound_loop fuel A s idx B0 St its st st' IH Hvb); auto; rewrite Eb; reflexivity].
+      apply (smul_mono V A A St (memo V (l_extend V X St))); [apply leV_refl | apply l_extend_ge].
+    + (* SBlock *)
+      destruct p as [|ps |? ?|?]; try discriminate Hex.
+      change (exec_seq exec ps l st = Some st') in Hex.
+      apply (sound_list fuel (smul V A) IH (F_smul A) l ps idx sid B st st'); auto.
+      eapply Conf_weaken; [apply leV_smul_sid | exact C].
+Qed.
+
+End Induction.
+
+(* ------------------------------------------------------------------ *)
+(* function level                                                      *)
+
+Lemma dedup_In' x l : In x (dedup l) <-> In x l.
+Proof.
+  induction l as [|h t IH]; simpl; [tauto|].
+  destruct (mem_strb h t) eqn:E.
+  - rewrite IH. split; [auto|]. intros [->|H]; [apply mem_strb_In; exact E | exact H].
+  - simpl. rewrite IH. tauto.
+Qed.
+
+Lemma insert_sorted_In' x y l : In y (insert_sorted x l) <-> y = x \/ In y l.
+Proof.
+  induction l as [|h t IH]; simpl; [intuition congruence|].
+  destruct (str_ltb x h); simpl; [intuition congruence|]. rewrite IH. intuition congruence.
+Qed.
+
+Lemma sort_str_In' x l : In x (sort_str l) <-> In x l.
+Proof.
+  unfold sort_str. induction l as [|h t IH]; simpl; [tauto|].
+  rewrite insert_sorted_In', IH. intuition congruence.
+Qed.
+
+Lemma func_vars_body' f : incl (flat_map stmt_vars (f_body f)) (func_vars f).
+Proof.
+  intros v Hv. unfold func_vars. apply sort_str_In'. apply dedup_In'. apply in_or_app. right; exact Hv.
+Qed.
+
+Theorem good_func f cs A p st' v :
+  fst (derive_func f cs) = Some A -> exec_func p f = Some st' -> In v (func_vars f) ->
+  good (func_vars f) (fun u => A u v) (st' v).
+Proof.
+  unfold derive_func, derive_list, exec_func. intros Hd Hex Hv.
+  destruct p as [|ps |? ?|?]; try discriminate Hex.
+  change (exec_seq exec ps (f_body f) init = Some st') in Hex.
+  apply (sound_list (func_vars f) cs depth_fuel (fun X => X) (sound_fuel (func_vars f) cs depth_fuel)
+           (F_id (func_vars f)) (f_body f) ps 0 sid A init st' (func_vars_body' f) Hd Hex).
+  - apply Conf_init.
+  - exact Hv.
+Qed.
+
+Theorem shape_func : forall f cs A p st' v,
+  fst (derive_func f cs) = Some A -> exec_func p f = Some st' -> In v (func_vars f) ->
+  shape_ok (fun u => A u v) (st' v) /\ incl (pvars (st' v)) (func_vars f).
+Proof.
+  intros f cs A p st' v Hd Hex Hv. pose proof (good_func f cs A p st' v Hd Hex Hv) as G.
+  split; [eapply good_shape; exact G|]. intros u Hu. apply G. exact Hu.
+Qed.
+
+(* ---- reading the reported table ---- *)
+
+Lemma tab_get_table V A u v : In u V -> In v V -> tab_get V (smat_table V A) u v = A u v.
+Proof.
+  intros Hu Hv. unfold tab_get, smat_table.
+  apply mem_strb_In in Hu. apply mem_strb_In in Hv. unfold mem_strb in Hu, Hv.
+  destruct (index_of_str u V) as [i|] eqn:Ei; [|discriminate].
+  destruct (index_of_str v V) as [j|] eqn:Ej; [|discriminate].
+  apply index_of_str_some in Ei. apply index_of_str_some in Ej.
+  destruct Ei as [Hi Eu], Ej as [Hj Ev].
+  rewrite (nth_map_lt _ _ _ _ ""%string Hi).
+  rewrite (nth_map_lt _ _ _ _ ""%string Hj).
+  subst. reflexivity.
+Qed.
+
+Theorem reported_func :
+  An_stmts.finite_result_stmt ->
+  forall f stop res r cs p st' v,
+    An_stmts.func_ok f -> analyse f stop = ROk res -> fr_infinite res = false -> fr_rel res = Some r ->
+    An_stmts.vec_ok (fr_index res) cs -> accepted (fr_inf_deltas res) cs = true ->
+    exec_func p f = Some st' -> In v (func_vars f) ->
+    shape_ok (fun u => tab_get (func_vars f) (apply_choice r (choice_of_list cs)) u v) (st' v).
+Proof.
+  intros FR f stop res r cs p st' v Hok Han Hinf Hr Hvec Hacc Hex Hv.
+  destruct (FR f stop res Hok Han Hinf) as [_ [_ [r' [Hr' [_ Hall]]]]].
+  rewrite Hr in Hr'. inversion Hr'; subst r'.
+  destruct (Hall cs Hvec) as [Hiff Hmat]. destruct (proj1 Hiff Hacc) as [A HA].
+  rewrite (Hmat A HA).
+  apply (good_shape (func_vars f)).
+  eapply good_weaken; [|apply (good_func f cs A p st' v HA Hex Hv)].
+  intros u Hu. cbv beta. rewrite tab_get_table by assumption. apply sc_le_refl.
+Qed.
+
+(* ---- the guard of a counted loop ---- *)
+
+Theorem guard_not_in_body iters srcs conds nxt body X :
+  loop_compat iters srcs conds nxt body = Some X -> ~ In X (stmt_vars body).
+Proof.
+  unfold loop_compat. destruct (loop_guard_x iters srcs conds nxt) as [|x [|? ?]]; try discriminate.
+  destruct (mem_strb x (stmt_vars body)) eqn:E; [discriminate|].
+  intros H. inversion H; subst. apply mem_strb_notIn. exact E.
+Qed.
+
+(* a for statement whose guard variable occurs in its body gets no L rule: the calculus and the
+   analysis model treat it as a skip, and it has no execution in the fragment *)
+Theorem guard_in_body_no_L iters srcs conds nxt body X :
+  loop_guard_x iters srcs conds nxt = [X] -> In X (stmt_vars body) ->
+  loop_compat iters srcs conds nxt body = None /\
+  (forall fuel V cs idx, derive (S fuel) V (SFor iters srcs conds nxt body) cs idx = (Some sid, idx)) /\
+  (forall fuel index d, compute (S fuel) index (SFor iters srcs conds nxt body) d = skip index d) /\
+  (forall p st, exec p (SFor iters srcs conds nxt body) st = None) /\
+  cfree (SFor iters srcs conds nxt body) = false.
+Proof.
+  intros Hg Hin.
+  assert (E : loop_compat iters srcs conds nxt body = None).
+  { unfold loop_compat. rewrite Hg. apply mem_strb_In in Hin. rewrite Hin. reflexivity. }
+  split; [exact E|]. split; [|split; [|split]].
+  - intros. cbn [derive]. rewrite E. reflexivity.
+  - intros. cbn [compute]. rewrite E. reflexivity.
+  - intros p st. destruct p; try reflexivity. cbn [exec]. rewrite E. reflexivity.
+  - cbn [cfree]. rewrite E. reflexivity.
+Qed.
+
+(* ---- the fragment is inhabited: every constant-free statement has an execution ---- *)
+
+Fixpoint default_path (s : stmt) : path :=
+  match s with
+  | SIf t _ => PIf true (map default_path t)
+  | SWhile _ b => PLoop [default_path b; default_path b]
+  | SFor _ _ _ _ b => PLoop [default_path b; default_path b]
+  | SBlock l => PSeq (map default_path l)
+  | _ => PLeaf
+  end.
+
+Fixpoint stmt_size (s : stmt) : nat :=
+  match s with
+  | SIf t e => S (fold_right (fun x a => stmt_size x + a) 0 t + fold_right (fun x a => stmt_size x + a) 0 e)
+  | SWhile _ b => S (stmt_size b)
+  | SFor _ _ _ _ b => S (stmt_size b)
+  | SBlock l => S (fold_right (fun x a => stmt_size x + a) 0 l)
+  | _ => 1
+  end.
+
+Lemma cfree_has_path_n : forall n s, stmt_size s <= n -> cfree s = true ->
+  forall st, exists st', exec (default_path s) s st = Some st'.
+Proof.
+  induction n as [|n IH]; intros s Hn Hc st.
+  - destruct s; simpl in Hn; lia.
+  - assert (HL : forall l, fold_right (fun x a => stmt_size x + a) 0 l <= n -> forallb cfree l = true ->
+               forall st, exists st', exec_seq exec (map default_path l) l st = Some st').
+    { induction l as [|s1 t IHl]; intros Hs Hf st0.
+      - exists st0. reflexivity.
+      - simpl in Hs, Hf. apply andb_true_iff in Hf. destruct Hf as [Hf1 Hf2].
+        destruct (IH s1 ltac:(lia) Hf1 st0) as [st1 E1].
+        destruct (IHl ltac:(lia) Hf2 st1) as [st2 E2].
+        exists st2. simpl map. rewrite exec_seq_cons, E1. exact E2. }
+    destruct s; simpl in Hn; cbn [cfree] in Hc; try discriminate Hc.
+    + exists st. reflexivity.
+    + destruct y as [y|]; [|discriminate Hc]. destruct z as [z|]; [|discriminate Hc].
+      cbn [default_path exec]. unfold exec_bin.
+      destruct (String.eqb op "+" || String.eqb op "-"); [eauto|].
+      simpl in Hc. rewrite Hc. eauto.
+    + eexists. reflexivity.
+    + apply andb_true_iff in Hc. destruct Hc as [Hc1 _].
+      destruct (HL t ltac:(lia) Hc1 st) as [st' E]. exists st'. exact E.
+    + destruct (IH s ltac:(lia) Hc st) as [st1 E1]. destruct (IH s ltac:(lia) Hc st1) as [st2 E2].
+      exists st2. cbn [default_path exec]. rewrite exec_iter_cons. cbv beta. rewrite E1. cbv beta iota. rewrite exec_iter_cons. cbv beta. rewrite E2. reflexivity.
+    + destruct (loop_compat iters srcs conds nxt s) eqn:El; [|discriminate Hc].
+      destruct (IH s ltac:(lia) Hc st) as [st1 E1]. destruct (IH s ltac:(lia) Hc st1) as [st2 E2].
+      exists st2. cbn [default_path exec]. rewrite El, exec_iter_cons. cbv beta. rewrite E1. cbv beta iota. rewrite exec_iter_cons. cbv beta. rewrite E2. reflexivity.
+    + destruct (HL l ltac:(lia) Hc st) as [st' E]. exists st'. exact E.
+Qed.
+
+Theorem cfree_has_path f : cfree_func f = true -> exists p st', exec_func p f = Some st'.
+Proof.
+  intros H. unfold exec_func.
+  destruct (cfree_has_path_n _ (SBlock (f_body f)) (le_n _) H init) as [st' E].
+  exists (default_path (SBlock (f_body f))), st'. exact E.
+Qed.
+
+(* ---- the statement is satisfiable and discriminating: the paper's example 3.1 ---- *)
+
+Definition ex31 : func_src :=
+  {| f_params := ["X1"; "X2"; "X3"];
+     f_body := [SBin "X1" "+" (AVar "X2") (AVar "X3"); SBin "X1" "+" (AVar "X1") (AVar "X1")] |}.
+
+Example ex31_instance :
+  cfree_func ex31 = true /\ func_vars ex31 = ["X1"; "X2"; "X3"] /\
+  exists A st',
+    fst (derive_func ex31 [0; 0]) = Some A /\
+    smat_table (func_vars ex31) A = [[O; O; O]; [P; M; O]; [P; O; M]] /\
+    exec_func (PSeq [PLeaf; PLeaf]) ex31 = Some st' /\
+    st' "X1" = [["X2"]; ["X3"]; ["X2"]; ["X3"]] /\
+    shape_ok (fun u => A u "X1") (st' "X1") /\
+    (* a wrong column (X2 max-listed: the bound max(X2) + X3) is rejected *)
+    ~ shape_ok (fun u => if String.eqb u "X2" then M else if String.eqb u "X3" then P else O) (st' "X1").
+Proof.
+  split; [reflexivity|]. split; [reflexivity|].
+  assert (H1 : match fst (derive_func ex31 [0; 0]) with
+               | Some A => smat_table (func_vars ex31) A = [[O; O; O]; [P; M; O]; [P; O; M]]
+               | None => False end) by (vm_compute; reflexivity).
+  assert (H2 : match exec_func (PSeq [PLeaf; PLeaf]) ex31 with
+               | Some st' => st' "X1" = [["X2"]; ["X3"]; ["X2"]; ["X3"]]
+               | None => False end) by (vm_compute; reflexivity).
+  destruct (fst (derive_func ex31 [0; 0])) as [A|] eqn:EA; [|contradiction].
+  destruct (exec_func (PSeq [PLeaf; PLeaf]) ex31) as [st'|] eqn:Est; [|contradiction].
+  exists A, st'. split; [reflexivity|]. rename H1 into ET. rename H2 into EV.
+  split; [exact ET|]. split; [reflexivity|]. split; [exact EV|]. split.
+  - assert (Hin : In "X1" (func_vars ex31)) by (vm_compute; auto).
+    exact (proj1 (shape_func ex31 [0; 0] A (PSeq [PLeaf; PLeaf]) st' "X1" EA Est Hin)).
+  - rewrite EV. intros [_ [H2 _]].
+    destruct (H2 "X2" eq_refl) as [Hc _]; [simpl; auto|]. vm_compute in Hc. discriminate.
+Qed.
+
+Print Assumptions shape_func.
+Print Assumptions reported_func.
+Print Assumptions guard_not_in_body.
+Print Assumptions guard_in_body_no_L.
+Print Assumptions cfree_has_path.
+Print Assumptions ex31_instance.
